@@ -3,7 +3,10 @@
 gen.MAC / MPC / MPD / MCF / MSF on every vector of small integer alphabets (real {-2..2}^n, Gaussian integers), on
 payload vectors with 8/16/64 components and on nearly collinear shapes, each under every complex scale of a catalogue
 (5 moduli x 6 phases), raw and re-normalised to a unit component; MAC matrices on every pair of 2-shape sets over a
-Gaussian-integer alphabet against the textbook definition.
+Gaussian-integer alphabet against the textbook definition. Dtype axis: the same values handed over as int64 / int32 / float32 /
+float64 / complex64 / complex128 arrays (every dtype that holds the values, every ordered pair of dtypes for the two arguments of
+MAC and MSF), on all integer vectors over {-2..2}^n, integer "table" vectors with 3..64 components, Gaussian-integer and payload
+complex vectors, all ordered pairs of 2-shape sets over a pool of six 3-component shapes, and complex sets against integer tables.
 """
 import itertools
 
@@ -16,12 +19,17 @@ from pyoma2.functions import gen
 ID = "C18"
 TECHNIQUE = ("bounded-exhaustive enumeration of mode shapes over small integer alphabets (all real vectors over {-2..2}^n, "
              "all Gaussian-integer vectors, all pairs of 2-shape sets) and payload vectors, times the full catalogue of "
-             "complex scales, with an oracle (bounds, invariance, exact collinear values, MSF = c) on every element")
+             "complex scales, with an oracle (bounds, invariance, exact collinear values, MSF = c) on every element; plus the full "
+             "lattice (shape or pair of shape sets) x (dtype of the first argument) x (dtype of the second argument) over int64, int32, "
+             "float32, float64, complex64, complex128 with the reference computed in complex128 from the same values")
 LEVEL_TEXT = ("every vector of the stated alphabets under every scale of the catalogue is evaluated on the real functions; "
-              "input classes (collinear, constant base vector, zero components, isotropic) are decided from the input")
+              "input classes (collinear, constant base vector, zero components, isotropic) are decided from the input; on the dtype axis "
+              "every admissible dtype (pair) of every listed shape / pair of sets is evaluated, admissibility decided from the values")
 RULE = ("a case is one (vector, complex scale, raw/unit-normalised) evaluation of the five indicators, or one ordered pair "
         "of 2-shape sets for the MAC matrix; non-trivial = the vector has at least two non-zero components and the scale "
-        "actually changes it (not the factor 1 on the raw vector), respectively the two sets differ; distinct by lattice index")
+        "actually changes it (not the factor 1 on the raw vector), respectively the two sets differ; distinct by lattice index; "
+        "on the dtype axis a case is one (shape or pair of sets, dtype, dtype) evaluation, non-trivial = at least one array is not "
+        "float64/complex128")
 ASSUMPTIONS = [
     "MAC reference value is the textbook definition |x^H a|^2 / ((x^H x)(a^H a)) computed with numpy sums",
     "MSF domain: vectors with |v^T v| >= 0.2 ||v||^2 only (the library's MSF is the bilinear ratio v2^T v1 / v1^T v1 pinned by "
@@ -35,6 +43,15 @@ ASSUMPTIONS = [
     "nearly collinear shapes (v + 1e-9 w) are judged for bounds, finiteness and invariance only (the statement fixes values "
     "only for exactly collinear shapes); their base vectors v are non-constant",
     "all-zero vectors are excluded (no indicator is defined)",
+    "dtype axis: an indicator is a function of the values of a shape, not of the storage type of the array; a shape is cast only to "
+    "dtypes that hold its values exactly (integer dtypes: integer-valued real shapes with |entries| <= 10, |c v| <= 180 in MSF, so that every integer "
+    "intermediate fits int32; real dtypes: real shapes), except that non-integer payload shapes are rounded by complex64 and the "
+    "reference is then computed (in complex128) from the rounded values actually stored",
+    "dtype axis, single-precision input (float32 / complex64 in either argument): single-precision tolerances - MAC/MPC/MCF 2e-6 "
+    "(16 eps32), MPD 2e-3 (sqrt(2 * 16 eps32)), MSF 1e-6 relative, bounds with 1e-6 slack; every other dtype combination (int64, "
+    "int32, float64, complex128) is judged with the double-precision tolerances above",
+    "dtype axis: MPC/MPD of a non-collinear complex64 shape are compared with the library's own value on the complex128 copy of the "
+    "same values (that value is judged by the vector route); MCF and MAC against closed forms; collinear shapes against 1 / 0 / 0 / 1",
 ]
 
 MODS = [1e-6, 1e-3, 1.0, 7.3, 1e6]
@@ -384,6 +401,415 @@ def judge_macsets(t, alpha, n, ix, ia_list, pid_base=None):
 
 
 # ---------------------------------------------------------------------------------------------
+# dtype axis: the same VALUES handed over as int64 / int32 / float32 / float64 / complex64 / complex128 arrays (a shape typed by
+# hand or read from a table of integers is an integer array), mixed between the two arguments of MAC / MSF. An indicator is a
+# function of the values of a shape, not of the array's storage type: the reference is computed in complex128 from the values
+# actually stored in the cast array.
+
+DTYPES = ["int64", "int32", "float32", "float64", "complex64", "complex128"]
+REAL_DT = DTYPES[:4]
+FLOAT_DT = DTYPES[2:]
+CPLX_DT = DTYPES[4:]
+SINGLE_DT = ("float32", "complex64")
+C_GAUSS = 2 - 1j               # complex factor whose products with integers are exact in every complex dtype
+MSF_INT_C = [3, -20]           # real factors c with c*v representable in every dtype of the axis
+MSF_HALF_C = -0.5              # non-integer factor (c*v exact in every floating dtype)
+# single-precision input gets single-precision tolerances (eps32 = 1.2e-7): 2e-6 ~ 16 eps32 for the rational indicators,
+# 2e-3 ~ sqrt(2 * 16 eps32) for MPD (arccos near 1), 1e-6 relative for MSF. All other dtypes keep the tolerances of the rest of the check.
+TOL32_INV = 2e-6
+TOL32_MPD = 2e-3
+TOL32_MSF = 1e-6
+SLACK32 = 1e-6                 # bounds slack for single-precision input (|x^H a|^2 is formed in float32: 1 + eps32 on collinear shapes)
+DT_POOL = [[1, 2, 0], [2, -1, 3], [1, 1, 1], [0, -2, 2], [1j, 1 + 1j, 2 - 1j], [1, -1j, 0]]
+DT_TABLE_N = [3, 8, 16, 64]
+DT_TABLE_VARIANTS = ["plain", "one-zero", "half-zeros"]
+DT_PAY_N = [8, 64]
+
+
+def cast(z, d):
+    """The values of z as an array of dtype d (exactly: asserts that nothing is lost except float32 rounding of non-integers)."""
+    z = np.asarray(z)
+    if d.startswith("complex"):
+        return z.astype(d)
+    if np.iscomplexobj(z):
+        if z.imag.any():
+            raise ValueError("complex values cannot be cast to a real dtype")
+        z = z.real
+    out = np.ascontiguousarray(z.astype(d))
+    if d.startswith("int") and not np.array_equal(out, z):
+        raise ValueError("non-integer values cannot be cast to an integer dtype")
+    return out
+
+
+def admissible(z):
+    """dtypes that can hold the values of z (decided from the input values)."""
+    z = np.asarray(z)
+    if np.iscomplexobj(z) and z.imag.any():
+        return CPLX_DT
+    r = z.real
+    return DTYPES if np.array_equal(r, np.rint(r)) else FLOAT_DT
+
+
+def up(p):
+    return np.asarray(p).astype(complex)
+
+
+def dclass(*ds):
+    """(class for outcome counters and violation keys, single precision involved?)"""
+    single = any(d in SINGLE_DT for d in ds)
+    if any(d.startswith("int") for d in ds):
+        cls = "int-typed"
+    elif single:
+        cls = "single"
+    else:
+        cls = "double"
+    return cls, single
+
+
+def mcf_ref(z):
+    x, y = z.real, z.imag
+    sxx, syy, sxy = float(x @ x), float(y @ y), float(x @ y)
+    return 1.0 - ((sxx - syy) ** 2 + 4 * sxy ** 2) / (sxx + syy) ** 2
+
+
+def build_dt(seed, fam, spec):
+    """-> complex128 vector holding the values of the shape."""
+    if fam == "dt-int":
+        return np.array(spec, complex)
+    if fam == "dt-gauss":
+        return np.array([_cplx(x) for x in spec], complex)
+    if fam == "dt-table":
+        n, var = spec
+        v = np.round(9 * payload.entries(seed, f"c18/dt/tab/{n}/{var}", (n,), 0.2, 1.0))   # integers with 2 <= |v| <= 9
+        if var == "one-zero":
+            v[n // 3] = 0.0
+        elif var == "half-zeros":
+            v[1::2] = 0.0
+        return v.astype(complex)
+    if fam == "dt-pay":
+        (n,) = spec
+        return payload.cplx(seed, f"c18/dt/pay/{n}", (n,), 0.2, 1.0)
+    raise ValueError(fam)
+
+
+def _indicator(t, viol, ind, f, what, extra):
+    """Call, then the generic judgements (one value, real, finite, bounds). -> float or None."""
+    t.evaluations += 1
+    try:
+        r = scalar(f())
+    except Exception as e:
+        viol(ind, f"raises-{type(e).__name__}", f"gen.{ind} raised {type(e).__name__}: {e} on {what}", extra)
+        return None
+    if r is None:
+        viol(ind, "shape", f"gen.{ind} did not return one value on {what}", extra)
+        return None
+    if np.iscomplexobj(r):
+        if abs(r.imag) > SLACK:
+            viol(ind, "complex-value", f"gen.{ind} = {r} (complex) on {what}", extra)
+            return None
+        r = r.real
+    r = float(r)
+    t.validated += 1
+    if not np.isfinite(r):
+        viol(ind, "not-finite", f"gen.{ind} = {r} on {what}", extra)
+        return None
+    if ind != "MSF":
+        hi = np.pi / 2 if ind == "MPD" else 1.0
+        slack = SLACK32 if any(d in SINGLE_DT for d in extra["dtypes"]) else SLACK
+        if not (-slack <= r <= hi + slack):
+            viol(ind, "bound", f"gen.{ind} = {r!r} outside [0, {hi:.6g}] on {what}", extra)
+            return None
+    return r
+
+
+def judge_dtvector(t, seed, fam, spec, did=None):
+    z = build_dt(seed, fam, spec)
+    if not z.any():
+        return
+    n = len(z)
+    real = not z.imag.any()
+    re_, im_ = z.real, z.imag
+    # exactly collinear (a complex multiple of a real vector): decided from the input (exact for the integer-valued families)
+    col = real or all(re_[i] * im_[j] - re_[j] * im_[i] == 0 for i in range(n) for j in range(i + 1, n))
+    constant = bool(np.all(z == z[0]))
+    adm = admissible(z)
+    case = {"route": "dtype-vector", "seed": seed, "fam": fam, "spec": spec}
+    t.states += 1
+    t.outcomes["dtype:class:" + ("constant-base" if constant else "collinear" if col else "general")
+               + ("+zero" if np.any(z == 0) else "")] += 1
+    nid = [0]
+
+    def viol(ind, kind, msg, extra):
+        cls = dclass(*extra["dtypes"])[0]
+        key = KNOWN_MPC if (ind == "MPC" and constant) else f"{ind}:dtype:{kind}:{cls}"
+        c = dict(case)
+        c.update(extra)
+        t.violation(key, msg, c)
+        t.outcomes[f"BAD:{ind}:dtype:{kind}"] += 1
+
+    def good(ind, ds):
+        cls = dclass(*ds)[0]
+        t.outcomes[f"dtype:{ind}:{cls}:ok"] += 1
+        t.transitions += 1
+        if did is not None and cls != "double":
+            nid[0] += 1
+            t.nontrivial.add(did + nid[0])
+
+    def show(p):
+        return f"{p.dtype} array {p.tolist()[:6]}" + (f" (n={len(p)})" if len(p) > 6 else "")
+
+    # --- one-argument indicators: every admissible dtype of the shape itself and, for a real shape, of its complex multiple
+    shapes = [("shape", z, adm)]
+    if real:
+        shapes.append(("complex-multiple", C_GAUSS * z, CPLX_DT))
+    for label, s, ds in shapes:
+        for d in ds:
+            p = cast(s, d)
+            single = d in SINGLE_DT
+            extra = {"dtypes": [d], "form": label}
+            pu = up(p)
+            for ind, f in (("MPD", gen.MPD), ("MPC", gen.MPC), ("MCF", gen.MCF)):
+                r = _indicator(t, viol, ind, lambda: f(p.copy()), show(p), extra)
+                if r is None:
+                    continue
+                if col:
+                    want = 1.0 if ind == "MPC" else 0.0
+                    tol = (TOL32_MPD if ind == "MPD" else TOL32_INV) if single else (TOL_MPD if ind == "MPD" else TOL_COL)
+                    why = "a complex multiple of a real vector"
+                else:
+                    if d == "complex128":
+                        continue          # this is the reference itself (judged by the vector route)
+                    if ind == "MCF":
+                        want = mcf_ref(pu)
+                    else:
+                        if ind == "MPD":
+                            sv = np.linalg.svd(np.c_[pu.real, pu.imag], compute_uv=False)
+                            if (sv[0] - sv[1]) < 0.05 * sv[0]:
+                                t.not_judged += 1
+                                continue
+                        want = _indicator(t, viol, ind, lambda: f(pu.copy()), show(pu), {"dtypes": ["complex128"], "form": label})
+                        if want is None:
+                            continue
+                    tol = (TOL32_MPD if ind == "MPD" else TOL32_INV) if single else (TOL_MPD if ind == "MPD" else TOL_INV)
+                    why = "the same values as complex128"
+                e = abs(r - want)
+                t.err(f"dtype:{ind}:{'single' if single else 'double'}", e)
+                if not e <= tol:
+                    viol(ind, "value", f"gen.{ind} = {r!r} on {show(p)}, expected {want!r} ({why})", extra)
+                else:
+                    good(ind, [d])
+
+    # --- MAC: second arguments = the shape itself, its complex multiple (real shapes), a different shape of the same kind,
+    #     and (complex shapes) a real integer vector; every admissible pair of dtypes, both orders
+    w = np.roll(z, 1).copy()
+    w[0] += 3
+    seconds = [("self", z, adm, 1.0)]
+    if real:
+        seconds.append(("complex-multiple", C_GAUSS * z, CPLX_DT, 1.0))
+    if w.any():
+        seconds.append(("other-shape", w, admissible(w), None))
+    else:
+        t.skipped_by_guard += 1
+    if not real:
+        rvec = np.array([(2 * i) % 5 - 2 for i in range(n)], complex)
+        rvec[0] = 1
+        seconds.append(("real-integer-vector", rvec, DTYPES, None))
+    for label, s, ds, exact in seconds:
+        for dx in adm:
+            x = cast(z, dx)
+            for da in ds:
+                a = cast(s, da)
+                cls, single = dclass(dx, da)
+                tol = TOL32_INV if single else TOL_INV
+                want = exact if exact is not None else mac_ref(up(x), up(a))
+                orders = [("XA", x, a)] if label == "self" else [("XA", x, a), ("AX", a, x)]
+                for order, p, q in orders:
+                    extra = {"dtypes": [dx, da], "form": f"MAC:{label}:{order}"}
+                    r = _indicator(t, viol, "MAC", lambda: gen.MAC(p.copy(), q.copy()), f"({show(p)}, {show(q)})", extra)
+                    if r is None:
+                        continue
+                    e = abs(r - want)
+                    t.err(f"dtype:MAC:{'single' if single else 'double'}", e)
+                    if not e <= tol:
+                        kind = "collinear-value" if exact is not None else "value"
+                        viol("MAC", kind, f"MAC({show(p)}, {show(q)}) = {r!r}, the definition on the same values gives {want!r}", extra)
+                    else:
+                        good("MAC", [dx, da])
+
+    # --- MSF(v, c v) = c and MSF(c v, v) = 1/c: integer c in every pair of dtypes, a non-integer c when c v is floating
+    vtv = abs(np.sum(z * z))
+    if not vtv >= 0.2 * np.sum(np.abs(z) ** 2):
+        t.skipped_by_guard += 1
+        t.outcomes["dtype:MSF:outside-domain"] += 1
+    else:
+        for c in MSF_INT_C + [MSF_HALF_C]:
+            cz = c * z
+            for dx in adm:
+                x = cast(z, dx)
+                for da in admissible(cz):
+                    if da not in adm:
+                        continue
+                    a = cast(cz, da)
+                    cls, single = dclass(dx, da)
+                    tol = TOL32_MSF if single else 1e-12
+                    for order, p, q, want in (("v,cv", x, a, c), ("cv,v", a, x, 1.0 / c)):
+                        extra = {"dtypes": [dx, da], "form": f"MSF:{order}", "c": c}
+                        r = _indicator(t, viol, "MSF", lambda: gen.MSF(p.copy(), q.copy()), f"({show(p)}, {show(q)})", extra)
+                        if r is None:
+                            continue
+                        e = abs(r - want) / abs(want)
+                        t.err(f"dtype:MSF:rel:{'single' if single else 'double'}", e)
+                        if not e <= tol:
+                            viol("MSF", "value", f"MSF({show(p)}, {show(q)}) = {r!r}, expected {want!r} (c = {c})", extra)
+                        else:
+                            good("MSF", [dx, da])
+    t.outcomes["dtype:vector-judged"] += 1
+
+
+def _judge_mac_matrix(t, case, nm, got, want, dx, da):
+    """MAC matrix against the definition: shape (rows = shapes of the first set), real, finite, bounds, values."""
+    cls, single = dclass(dx, da)
+    tol = TOL32_INV if single else TOL_INV
+    t.validated += 1
+    got = np.asarray(got)
+    c = dict(case)
+    c.update({"dtypes": [dx, da], "form": nm})
+    if got.shape != want.shape:
+        t.violation(f"MAC:dtype:shape:{nm}:{cls}", f"MAC has shape {got.shape}, expected {want.shape} (rows = shapes of the first set) for dtypes {dx}, {da}", c)
+        return False
+    if np.iscomplexobj(got) or not np.all(np.isfinite(got)):
+        t.violation(f"MAC:dtype:not-finite-or-complex:{nm}:{cls}", f"MAC = {got.tolist()} for dtypes {dx}, {da}", c)
+        return False
+    slack = SLACK32 if single else SLACK
+    if np.any(got < -slack) or np.any(got > 1 + slack):
+        t.violation(f"MAC:dtype:bound:{nm}:{cls}", f"MAC = {got.tolist()} outside [0, 1] for dtypes {dx}, {da}", c)
+        return False
+    e = float(np.max(np.abs(got - want)))
+    t.err(f"dtype:MAC:sets:{'single' if single else 'double'}", e)
+    if not e <= tol:
+        sym = got.shape == want.T.shape and float(np.max(np.abs(got - want.T))) <= tol
+        t.violation(f"MAC:dtype:{'transposed' if sym else 'value'}:{nm}:{cls}",
+                    f"MAC of a {dx} set and a {da} set = {got.tolist()}, the definition on the same values gives {want.tolist()}", c)
+        return False
+    return True
+
+
+def judge_dtsets(t, ix, ia_list, pid_base=None):
+    """X = ordered pair number ix of pool shapes, A runs over ia_list; every admissible pair of dtypes."""
+    npool = len(DT_POOL)
+    X = np.array([DT_POOL[ix // npool], DT_POOL[ix % npool]], complex).T
+    for ia in ia_list:
+        A = np.array([DT_POOL[ia // npool], DT_POOL[ia % npool]], complex).T
+        case = {"route": "dtype-sets", "ix": ix, "ia": ia}
+        ref = np.array([[mac_ref(X[:, i], A[:, j]) for j in range(2)] for i in range(2)])
+        k = 0
+        for dx in admissible(X):
+            Xd = cast(X, dx)
+            for da in admissible(A):
+                Ad = cast(A, da)
+                k += 1
+                cls = dclass(dx, da)[0]
+                t.states += 1
+                t.transitions += 1
+                t.evaluations += 4
+                if pid_base is not None and cls != "double":
+                    t.nontrivial.add(pid_base + ia * 36 + k)
+                try:
+                    forms = (("XA", gen.MAC(Xd.copy(), Ad.copy()), ref),
+                             ("AX", gen.MAC(Ad.copy(), Xd.copy()), ref.T),
+                             ("1D-vs-set", gen.MAC(Xd[:, 0].copy(), Ad.copy()), ref[:1]),
+                             ("set-vs-1D", gen.MAC(Xd.copy(), Ad[:, 1].copy()), ref[:, 1:]))
+                except Exception as e:
+                    c = dict(case)
+                    c["dtypes"] = [dx, da]
+                    t.violation(f"MAC:dtype:raises-{type(e).__name__}:sets:{cls}", f"gen.MAC raised {type(e).__name__}: {e} for a {dx} set and a {da} set", c)
+                    continue
+                ok = True
+                for nm, got, want in forms:
+                    ok = _judge_mac_matrix(t, case, nm, got, want, dx, da) and ok
+                t.outcomes[f"dtype:sets:{cls}:" + ("ok" if ok else "BAD")] += 1
+
+
+def judge_dttable(t, seed, n, pid_base=None):
+    """A set of 3 complex payload shapes against a table of 2 integer-valued real shapes with n components."""
+    Phi = payload.cplx(seed, f"c18/dt/phi/{n}", (n, 3), 0.2, 1.0)
+    V = np.round(9 * payload.entries(seed, f"c18/dt/V/{n}", (n, 2), 0.2, 1.0))
+    V[n // 3, 0] = 0.0
+    case = {"route": "dtype-table", "seed": seed, "n": n}
+    k = 0
+
+    def one(nm, P, Q, dp, dq):
+        cls = dclass(dp, dq)[0]
+        t.states += 1
+        t.transitions += 1
+        t.evaluations += 1
+        Pu, Qu = up(P), up(Q)
+        want = np.array([[mac_ref(Pu[:, i], Qu[:, j]) for j in range(Qu.shape[1])] for i in range(Pu.shape[1])])
+        try:
+            got = gen.MAC(P.copy(), Q.copy())
+        except Exception as e:
+            c = dict(case)
+            c["dtypes"] = [dp, dq]
+            t.violation(f"MAC:dtype:raises-{type(e).__name__}:table:{cls}", f"gen.MAC raised {type(e).__name__}: {e} for a {dp} set and a {dq} set", c)
+            return
+        ok = _judge_mac_matrix(t, case, nm, got, want, dp, dq)
+        t.outcomes[f"dtype:table:{cls}:" + ("ok" if ok else "BAD")] += 1
+
+    for dv in DTYPES:
+        Vd = cast(V, dv)
+        for dp in CPLX_DT:
+            Pd = cast(Phi, dp)
+            k += 1
+            if pid_base is not None and dclass(dp, dv)[0] != "double":
+                t.nontrivial.add(pid_base + k)
+            one("table:3x2", Pd, Vd, dp, dv)
+            one("table:2x3", Vd, Pd, dv, dp)
+        for dw in DTYPES:
+            k += 1
+            if pid_base is not None and dclass(dw, dv)[0] != "double":
+                t.nontrivial.add(pid_base + k)
+            one("table:2x2", Vd, cast(V[:, ::-1] + np.array([[1.0, 0.0]]), dw), dv, dw)
+
+
+def dtype_space(thorough):
+    out = []
+    for n in ((2, 3, 4) if thorough else (2, 3)):
+        for v in itertools.product([-2, -1, 0, 1, 2], repeat=n):
+            if any(v):
+                out.append(("dt-int", list(v)))
+    for n in DT_TABLE_N:
+        for var in DT_TABLE_VARIANTS:
+            out.append(("dt-table", [n, var]))
+    for n in ((2, 3) if thorough else (2,)):
+        for v in itertools.product(range(len(GAUSS)), repeat=n):
+            if any(v):
+                out.append(("dt-gauss", [GAUSS[i] for i in v]))
+    for n in DT_PAY_N:
+        out.append(("dt-pay", [n]))
+    return out
+
+
+def work_dtype(item):
+    kind = item[0]
+    t = Tally()
+    if kind == "vec":
+        _, start, chunk, off = item
+        for k, (fam, spec) in enumerate(chunk):
+            judge_dtvector(t, _CFG["seed"], fam, spec, did=off + (start + k) * 1024)
+            if (start + k) % 61 == 0:
+                t.sample({"route": "dtype-vector", "fam": fam, "spec": spec, "dtypes": admissible(build_dt(_CFG["seed"], fam, spec))})
+    elif kind == "sets":
+        _, ix, nsets, off = item
+        judge_dtsets(t, ix, range(nsets), off + ix * nsets * 36)
+        if ix % 7 == 0:
+            t.sample({"route": "dtype-sets", "ix": ix, "A sets": nsets, "X": [DT_POOL[ix // len(DT_POOL)], DT_POOL[ix % len(DT_POOL)]]})
+    else:
+        _, n, off = item
+        judge_dttable(t, _CFG["seed"], n, off)
+    return t
+
+
+# ---------------------------------------------------------------------------------------------
 # exploration
 
 _CFG = {}
@@ -474,11 +900,46 @@ def explore(ctx):
                           "forms": ["MAC(X,A)", "MAC(A,X)", "1-D vs set", "2 x 3"]},
         "payload": f"mc.payload keyed by VERIF_SEED={ctx.seed}",
     }
+    # dtype axis (same code path in both tiers; the thorough tier only enlarges the vector alphabets)
+    dvecs = dtype_space(ctx.thorough)
+    DCH = 8
+    ditems = [("vec", s, dvecs[s:s + DCH], off) for s in range(0, len(dvecs), DCH)]
+    off += len(dvecs) * 1024
+    ndsets = len(DT_POOL) ** 2
+    ditems += [("sets", ix, ndsets, off) for ix in range(ndsets)]
+    off += ndsets * ndsets * 36
+    ditems += [("table", n, off + i * 64) for i, n in enumerate(DT_TABLE_N)]
+    dfam = {}
+    for fam, _ in dvecs:
+        dfam[fam] = dfam.get(fam, 0) + 1
+    ctx.bounds["dtype axis"] = {
+        "dtypes": DTYPES,
+        "rule": "every dtype that can hold the values of the shape exactly (integer-valued real shapes: all six; complex shapes: the two "
+                "complex ones), every ordered pair of dtypes for the two arguments of MAC and MSF; reference from the same values in complex128",
+        "vectors": dfam,
+        "dt-int": "all non-zero vectors over {-2..2}^n, n = " + ("2,3,4" if ctx.thorough else "2,3"),
+        "dt-table": {"n": DT_TABLE_N, "variants": DT_TABLE_VARIANTS, "values": "round(9 * payload), integers with 2 <= |v| <= 9"},
+        "dt-gauss": f"all non-zero vectors over {[str(g) for g in GAUSS]}^n, n = " + ("2,3" if ctx.thorough else "2"),
+        "dt-pay": {"n": DT_PAY_N, "values": "complex payload (non-integer: complex64 rounds)"},
+        "per vector": ["MPD/MPC/MCF of the shape in every dtype and of (2-1j)*shape in both complex dtypes",
+                       "MAC with itself, with (2-1j)*itself, with another shape, (complex shapes) with a real integer vector; both orders",
+                       f"MSF(v, c v) = c and MSF(c v, v) = 1/c for c in {MSF_INT_C + [MSF_HALF_C]}"],
+        "MAC set pairs": {"pool of 3-component shapes": [[str(x) for x in v] for v in DT_POOL], "2-shape sets": ndsets,
+                          "ordered pairs of sets": ndsets * ndsets, "forms": ["MAC(X,A)", "MAC(A,X)", "1-D vs set", "set vs 1-D"]},
+        "tables": {"n": DT_TABLE_N, "sets": "3 complex payload shapes (complex64/complex128) x 2 integer-valued real shapes (6 dtypes), both orders; "
+                                            "integer table x integer table in all 36 dtype pairs"},
+        "single-precision tolerances": {"MAC/MPC/MCF": TOL32_INV, "MPD": TOL32_MPD, "MSF relative": TOL32_MSF},
+    }
     ctx.pmap(work_vectors, items, chunksize=1)
     ctx.pmap(work_macsets, mitems, chunksize=1)
+    ctx.pmap(work_dtype, ditems, chunksize=1)
     ctx.require("class:collinear", "class:collinear+zero", "class:constant-base", "class:general", "class:general+zero",
                 "class:near-collinear", "class:isotropic(MPD invariance not judged)", "MSF:ok:c<0", "MSF:ok:c>0",
                 "MSF:outside-domain", "MAC:same-array-rescaled-in-place:ok", "macsets:ok", "macsets:asymmetric-matrix(orientation observable)", "vector-judged")
+    ctx.require("dtype:vector-judged", "dtype:class:collinear", "dtype:class:collinear+zero", "dtype:class:constant-base", "dtype:class:general",
+                "dtype:MSF:outside-domain",
+                *[f"dtype:{ind}:{cls}:ok" for ind in ("MAC", "MSF", "MCF", "MPC", "MPD") for cls in ("int-typed", "single", "double")],
+                *[f"dtype:{r}:{cls}:ok" for r in ("sets", "table") for cls in ("int-typed", "single", "double")])
 
 
 def _cplx(x):
@@ -497,6 +958,12 @@ def replay(case):
     elif case.get("route") == "macsets":
         alpha = [complex(s) for s in case["alphabet"]]
         judge_macsets(t, alpha, case["n"], case["ix"], [case["ia"]])
+    elif case.get("route") == "dtype-vector":
+        judge_dtvector(t, case["seed"], case["fam"], case["spec"])
+    elif case.get("route") == "dtype-sets":
+        judge_dtsets(t, case["ix"], [case["ia"]])
+    elif case.get("route") == "dtype-table":
+        judge_dttable(t, case["seed"], case["n"])
     else:
         raise ValueError("unknown route")
     return t
